@@ -5,6 +5,7 @@ import (
 	"fmt"
 	"math/big"
 	"reflect"
+	"runtime"
 	"sort"
 	"strconv"
 	"strings"
@@ -27,6 +28,8 @@ import (
 // Family records (C04): the Serialization / Deserialization pairs of the native parameter and state types.
 //
 //	dec <Type> <B> <keys>        the real decoder on B: "ok <V> rest=<unread>" | "err" | "panic"
+//	decm <Type> <B> <keys>       dec, and the bytes allocated by the decoder are measured: a small input must not make it
+//	                             allocate tens of megabytes (memory reserved from a declared count)
 //	rt <Type> <V> <B> <keys>     B is the encoding of a value rendered V: decodes to V, re-encodes to B eight times (fresh
 //	                             map iteration orders), every examined truncation is refused: "ok" | "FAIL:<which>"
 //
@@ -359,15 +362,39 @@ func (f *recordsFam) decode(r *hx.Run, rt *recType, data []byte) (obj interface{
 	return
 }
 
+// allocatedBy runs fn and returns the bytes it allocated (runtime.MemStats.TotalAlloc delta; the harness is single-threaded).
+func allocatedBy(fn func()) uint64 {
+	var a, b runtime.MemStats
+	runtime.ReadMemStats(&a)
+	fn()
+	runtime.ReadMemStats(&b)
+	return b.TotalAlloc - a.TotalAlloc
+}
+
+// allocLimit: a decoder may allocate in proportion to its input; a small input that makes it allocate more than this
+// before (or without) failing reserves memory from a wire count.
+func allocLimit(inputLen int) uint64 { return 32<<20 + 64*uint64(inputLen) }
+
 func (f *recordsFam) Exec(r *hx.Run, op []string) string {
 	rt := recByName(op[1])
 	if rt == nil {
 		return "bad-op"
 	}
 	switch op[0] {
-	case "dec":
+	case "dec", "decm":
 		data := hx.UnHex(op[2])
-		obj, rest, res := f.decode(r, rt, data)
+		var obj interface{}
+		var rest int
+		var res string
+		if op[0] == "decm" {
+			n := allocatedBy(func() { obj, rest, res = f.decode(r, rt, data) })
+			if n > allocLimit(len(data)) {
+				r.Viol("C04:decoder-allocates-from-count:"+rt.name, fmt.Sprintf("%s.Deserialization of the %d-byte input %s allocates %d MB (outcome %s): memory is reserved from a declared count before the elements are read",
+					rt.name, len(data), trunc(hx.Hex(data), 200), n>>20, res))
+			}
+		} else {
+			obj, rest, res = f.decode(r, rt, data)
+		}
 		if res != "ok" {
 			return res
 		}
@@ -478,6 +505,23 @@ func (f *recordsFam) Gen(r *hx.Run) {
 			if f.sawPanic[rt.name] {
 				r.Hist("skipped.more-huge-counts-after-panic")
 				break
+			}
+		}
+		// a declared count of 2^22 at every offset, allocation measured: reserving memory for 4M elements from a dozen bytes
+		if !f.sawPanic[rt.name] {
+			for _, c := range [][]byte{varuintBytes(1<<22, 0), {0, 0, 0x40, 0, 0, 0, 0, 0}} {
+				for i := 0; i < limit; i++ {
+					width := 1
+					if len(c) == 8 {
+						width = 8
+					}
+					if i+width > len(firstEnc) {
+						continue
+					}
+					m := append(append(append([]byte{}, firstEnc[:i]...), c...), firstEnc[i+width:]...)
+					out := r.Do(fmt.Sprintf("decm %s %s keys=-", rt.name, hx.Hex(m)))
+					r.Hist("measured." + outClass(out))
+				}
 			}
 		}
 	}
